@@ -2,6 +2,6 @@ SPECIFICATION DSpec
 CONSTANTS
   DimKernels <- QuickDimKernels
   WrapArgs = TRUE
-INVARIANTS BijectionOK WholeOK
+INVARIANTS WholeOK ArgsInRange MeantIsLin Sensitive
 CONSTRAINT DEmit
 CHECK_DEADLOCK FALSE
